@@ -423,7 +423,7 @@ def check(idx: Index, rep: Report, tier: str) -> str:
     pushers = {m.name for m in wmeths if any(unparse(c.func) == "self._worklist.push" for c in calls_in(m.node))}
     for _ in range(3):
         pushers |= {m.name for m in wmeths if any(isinstance(c.func, ast.Attribute) and unparse(c.func.value) == "self" and c.func.attr in pushers for c in calls_in(m.node))}
-    purge_loops = [w for w in walk_local(f.raw_node) if isinstance(w, ast.For) and unparse(w.iter) == f"{opn}.walk()" and any(unparse(c.func) == "self._worklist.remove" for c in calls_in(w))]
+    purge_loops = [w for w in walk_local(f.as_raw().node) if isinstance(w, ast.For) and unparse(w.iter) == f"{opn}.walk()" and any(unparse(c.func) == "self._worklist.remove" for c in calls_in(w))]
     bad_push = []
     for w in purge_loops:
         tgt = unparse(w.target)
